@@ -3,6 +3,7 @@
 package lab
 
 import (
+	"github.com/saucelabs/forwarder"
 	"bufio"
 	"errors"
 	"fmt"
@@ -33,11 +34,15 @@ type C20Case struct {
 	// WindowMs > 0: a limit so low that a transfer exceeding the burst by more than the tolerance cannot be waited
 	// for: burst + 512 KiB are offered, the clients watch for this long and leave; only what passed is judged.
 	WindowMs int `json:"window_ms,omitempty"`
+	// Stack: "" plain listener | "pp" PROXY-protocol listener | "tls" https listener - the limits belong to the
+	// listener whatever else is stacked on it
+	Stack string `json:"stack,omitempty"`
 }
 
 func genC20(t *rapid.T) C20Case {
 	c := C20Case{Dir: rapid.SampledFrom([]string{"download", "upload", "tunnel-download", "tunnel-upload"}).Draw(t, "dir"), Conns: rapid.IntRange(1, 3).Draw(t, "conns"),
 		ExtraMs: rapid.SampledFrom([]int{300, 500, 800}).Draw(t, "extra")}
+	c.Stack = rapid.SampledFrom([]string{"", "", "pp", "tls"}).Draw(t, "stack")
 	rate := rapid.SampledFrom([]int{1 << 20, 2 << 20, 4 << 20}).Draw(t, "rate")
 	other := rapid.SampledFrom([]int{0, 64 << 10}).Draw(t, "other") // a limit so low that, applied to the wrong direction, the transfer would take > 16 s
 	down := strings.HasSuffix(c.Dir, "download")
@@ -62,6 +67,16 @@ func genC20(t *rapid.T) C20Case {
 		}
 	}
 	return c
+}
+
+var (
+	c20CAOnce sync.Once
+	c20ca     *CA
+)
+
+func c20CA() *CA {
+	c20CAOnce.Do(func() { c20ca = NewCA("verif C20 CA") })
+	return c20ca
 }
 
 // ---------------------------------------------------------------------------
@@ -188,7 +203,16 @@ func runC20once(c C20Case) (fails []vstat.Failure) {
 	if err != nil {
 		return []vstat.Failure{vstat.Failf("C20:harness", "origin: %v", err)}
 	}
-	px, err := StartProxy(ProxyOpts{ReadLimit: int64(c.ReadLimit), WriteLimit: int64(c.WriteLimit), ShutdownTimeout: time.Second})
+	po := ProxyOpts{ReadLimit: int64(c.ReadLimit), WriteLimit: int64(c.WriteLimit), ShutdownTimeout: time.Second}
+	var ca *CA
+	switch c.Stack {
+	case "pp":
+		po.ProxyProtocol = &forwarder.ProxyProtocolConfig{ReadHeaderTimeout: 5 * time.Second}
+	case "tls":
+		ca = c20CA()
+		po.CA, po.ListenerTLS = ca, true
+	}
+	px, err := StartProxy(po)
 	if err != nil {
 		return []vstat.Failure{vstat.Failf("C20:harness", "proxy: %v", err)}
 	}
@@ -238,14 +262,26 @@ func runC20once(c C20Case) (fails []vstat.Failure) {
 			}
 			defer tc.Close()
 			tc.SetDeadline(time.Now().Add(40 * time.Second))
+			var conn net.Conn = tc
+			switch c.Stack {
+			case "pp":
+				tc.Write([]byte(ppLine))
+			case "tls":
+				t := tlsClientFor(tc, ca)
+				if err := t.Handshake(); err != nil {
+					r.err = fmt.Errorf("TLS to the listener: %w", err)
+					return
+				}
+				conn = t
+			}
 			timedOut := func(err error) bool {
 				var ne net.Error
 				return windowed && errors.As(err, &ne) && ne.Timeout()
 			}
-			br := bufio.NewReaderSize(tc, 64<<10)
+			br := bufio.NewReaderSize(conn, 64<<10)
 			abs := "http://" + host
 			if tunnel {
-				fmt.Fprintf(tc, "CONNECT %s HTTP/1.1\r\nHost: %s\r\n\r\n", host, host)
+				fmt.Fprintf(conn, "CONNECT %s HTTP/1.1\r\nHost: %s\r\n\r\n", host, host)
 				if m, err := ReadResponse(br, "CONNECT"); err != nil || m.Status != 200 {
 					r.err = fmt.Errorf("CONNECT: %v", err)
 					return
@@ -253,7 +289,7 @@ func runC20once(c C20Case) (fails []vstat.Failure) {
 				abs = ""
 			}
 			if down {
-				fmt.Fprintf(tc, "GET %s/dl?n=%d HTTP/1.1\r\nHost: %s\r\nX-Vid: %s\r\nX-Pid: %d\r\n\r\n", abs, per, host, vid, pid)
+				fmt.Fprintf(conn, "GET %s/dl?n=%d HTTP/1.1\r\nHost: %s\r\nX-Vid: %s\r\nX-Pid: %d\r\n\r\n", abs, per, host, vid, pid)
 				m, err := ReadResponseHead(br, "GET")
 				if err != nil || m.Status != 200 {
 					r.err = fmt.Errorf("download head: %v", err)
@@ -286,7 +322,7 @@ func runC20once(c C20Case) (fails []vstat.Failure) {
 				return
 			}
 			// upload
-			fmt.Fprintf(tc, "POST %s/ul HTTP/1.1\r\nHost: %s\r\nX-Vid: %s\r\nX-Pid: %d\r\nContent-Length: %d\r\n\r\n", abs, host, vid, pid, per)
+			fmt.Fprintf(conn, "POST %s/ul HTTP/1.1\r\nHost: %s\r\nX-Vid: %s\r\nX-Pid: %d\r\nContent-Length: %d\r\n\r\n", abs, host, vid, pid, per)
 			buf := make([]byte, 64<<10)
 			if windowed {
 				tc.SetDeadline(t0.Add(time.Duration(c.WindowMs) * time.Millisecond))
@@ -300,7 +336,7 @@ func runC20once(c C20Case) (fails []vstat.Failure) {
 			for off := 0; off < per; {
 				k := min(len(buf), per-off)
 				FillPayload(buf[:k], pid, off)
-				if _, err := tc.Write(buf[:k]); err != nil {
+				if _, err := conn.Write(buf[:k]); err != nil {
 					if timedOut(err) {
 						collect()
 						return
@@ -364,7 +400,7 @@ func runC20once(c C20Case) (fails []vstat.Failure) {
 }
 
 func classifyC20(c C20Case) (bool, string, []string) {
-	cls := []string{"dir-" + c.Dir, fmt.Sprintf("conns=%d", c.Conns)}
+	cls := []string{"dir-" + c.Dir, fmt.Sprintf("conns=%d", c.Conns), "listener-" + c.Stack}
 	if c.WindowMs > 0 {
 		cls = append(cls, "limit-below-one-io-call")
 	}
